@@ -3,15 +3,20 @@ import TextxVerif.Peg.Case
 /-! Driver for C20 (token matching with `ignore_case` on top of the Arpeggio mirror).
 
 {"op":"c20","nodes":[…as Drivers/Peg.lean…],"top":n,"comments":n|null,"memo":b,"skipws":b,"ws":"…",
- "toks":[{"k":"str","lit":"…","ic":b}|{"k":"re"}|{"k":"other"} …]   (one per node),
+ "toks":[{"k":"str","lit":"…","ic":b}|{"k":"re"}|{"k":"kw","lit":"…"}|{"k":"other"} …]   (one per node),
  "tab":[["É","é"]…]            (non-ASCII part of the lower-casing table; ASCII is built in),
  "inputs":[{"text":"…","rx":[[len|-1…]|null …]}…]   (inputs[0] = the original text, the others its variants;
                                                      rx = rows of the regex nodes as measured on the real `re`),
- "lits":[{"k":"str"|"re","v":"…"}…],"cfg":{"ic":b,"autokwd":b},"fuel":n}
+ "lits":[{"k":"str"|"re","v":"…"}…],"cfg":{"ic":b,"autokwd":b},"fuel":n,
+ "history":[{"cfg":{…},"lits":[…]}…]   (meta-models constructed earlier in the same process, optional),
+ "later":[{"cfg":{…},"lits":[…]}…]     (meta-models constructed after it, optional)}
+{"op":"compile","lits":…,"cfg":…,"history":…,"later":…} → only the "compiled…" fields (no parser model)
 {"op":"batch","base":{…common fields…},"reqs":[{…per-text fields…}]} → {"outs":[…]}
 → {"outs":[{"res":{"ok":tree}|{"nomatch":pos}|{"err":…},"vals":["…"…],"strrows":[[node,[len|-1…]]…]}…],
    "hyp":{"allic":b,"wsneutral":b,"foldeq":[b…],"rxeq":[b…]},
-   "compiled":[{"k":"str"|"re","v":"…","ic":b}…]}
+   "compiled":[{"k":"str","v":"…","ic":b}|{"k":"re","v":pattern,"ic":compiled flag,"flag":b}|
+               {"k":"kw","v":literal,"pat":pattern,"ic":compiled flag,"flag":b}…],
+   "hist_compiled":[[…]…],"later_compiled":[[…]…]}   (`buildMM` threaded through history, meta-model, later)
 Undecodable requests → {"err":"bad-op"}.
 -/
 open Lean Wire Peg Peg.Case
@@ -48,6 +53,7 @@ def parseTok (j : Json) : Option Tok := do
   match ← getStr? j "k" with
   | "str" => pure (.str (← getStr? j "lit").toList (← getBool? j "ic"))
   | "re" => pure .re
+  | "kw" => pure (.kw (← getStr? j "lit").toList)
   | "other" => pure .other
   | _ => none
 
@@ -86,7 +92,46 @@ def isDigitC (c : Char) : Bool := c.isDigit
 
 def matchObjToJson : MatchObj → Json
   | .strMatch s ic => Json.mkObj [("k", "str"), ("v", String.ofList s), ("ic", ic)]
-  | .regexMatch s ic => Json.mkObj [("k", "re"), ("v", String.ofList s), ("ic", ic)]
+  | .regexMatch s ic r => Json.mkObj [("k", "re"), ("v", String.ofList s), ("ic", r.ic), ("flag", ic),
+                                      ("cpat", String.ofList r.pattern)]
+  | .keywordMatch s pat ic r => Json.mkObj [("k", "kw"), ("v", String.ofList s), ("pat", String.ofList pat),
+                                            ("ic", r.ic), ("flag", ic), ("cpat", String.ofList r.pattern)]
+
+def parseCfg (j : Json) : Option Cfg := do
+  pure { ignoreCase := ← getBool? j "ic", autokwd := ← getBool? j "autokwd" }
+
+def parseMMs (j : Json) (k : String) : Option (List (Cfg × List Lit)) :=
+  match getObj? j k with
+  | none => some []
+  | some Json.null => some []
+  | some v => do
+    let a ← asArr? v
+    let l ← a.mapM fun e => do
+      let cfg ← parseCfg (← getObj? e "cfg")
+      let lits ← (← getArr? e "lits").mapM parseLit
+      pure (cfg, lits.toList)
+    pure l.toList
+
+/-- `buildMM` over a list of meta-models, threading the cache; the objects of each -/
+def buildSeq (c : ReCache) : List (Cfg × List Lit) → ReCache × List (List MatchObj)
+  | [] => (c, [])
+  | (cfg, lits) :: rest =>
+    let r := buildMM isWordC isDigitC c cfg lits
+    let rs := buildSeq r.1 rest
+    (rs.1, r.2 :: rs.2)
+
+/-- the "compiled…" fields: history, then the meta-model, then the later ones, in one process -/
+def compiledFields (j : Json) : Option (List (String × Json)) := do
+  let lits ← (← getArr? j "lits").mapM parseLit
+  let cfg ← parseCfg (← getObj? j "cfg")
+  let hist ← parseMMs j "history"
+  let later ← parseMMs j "later"
+  let h := buildSeq [] hist
+  let m := buildMM isWordC isDigitC h.1 cfg lits.toList
+  let l := buildSeq m.1 later
+  let enc (ms : List MatchObj) : Json := Json.arr (ms.map matchObjToJson).toArray
+  pure [("compiled", enc m.2), ("hist_compiled", Json.arr (h.2.map enc).toArray),
+        ("later_compiled", Json.arr (l.2.map enc).toArray)]
 
 structure Inp where
   text : Array Char
@@ -123,9 +168,7 @@ def handle1 (j : Json) : Json :=
         let t ← getStr? e "text"
         let rx ← parseRxRows (← getObj? e "rx")
         pure ({ text := t.toList.toArray, rx := rx } : Inp)
-      let lits ← (← getArr? j "lits").mapM parseLit
-      let cfgJ ← getObj? j "cfg"
-      let cfg : Cfg := { ignoreCase := ← getBool? cfgJ "ic", autokwd := ← getBool? cfgJ "autokwd" }
+      let compiled ← compiledFields j
       let fuel ← getNat? j "fuel"
       if toks.size != nodes.size then none
       if !(inps.toList.map (·.text)).Nodup then none
@@ -152,13 +195,13 @@ def handle1 (j : Json) : Json :=
       let rxeq := variants.map fun v =>
         (List.range toks.size).all fun i =>
           match toks[i]? with
-          | some Tok.re => tokRow lower (rxFor base i) .re base.text == tokRow lower (rxFor v i) .re v.text
-          | _ => true
+          | some t => !t.isRx || tokRow lower (rxFor base i) t base.text == tokRow lower (rxFor v i) t v.text
+          | none => true
       let hyp := Json.mkObj [("allic", allIc toks), ("wsneutral", wsNeutralB tab L),
                              ("foldeq", toJson foldeq), ("rxeq", toJson rxeq)]
-      let compiled := lits.map fun l => matchObjToJson (compileLit isWordC isDigitC cfg l)
-      pure <| Json.mkObj [("outs", Json.arr outs), ("hyp", hyp), ("compiled", Json.arr compiled)]
+      pure <| Json.mkObj ([("outs", Json.arr outs), ("hyp", hyp)] ++ compiled)
     r.getD badOp
+  | some "compile" => ((compiledFields j).map Json.mkObj).getD badOp
   | _ => badOp
 
 /-- {"op":"batch","base":{…common fields…},"reqs":[{…overrides…}]} → {"outs":[…]} -/
